@@ -5,6 +5,18 @@ import os
 VERIF = os.path.dirname(os.path.dirname(os.path.abspath(__file__)))
 
 CHECKS = {
+    "C10": dict(engine="calltree", level="exploration", design="4/C10, 3.5",
+                technique="deterministic simulation: generated call trees re-run over drawn memoized subsets (forget / restart / evict histories) with every stored provenance record compared to a reference model",
+                text="Generated call DAGs with repeated, batched, mapped, keyword-presented, ignore_result, failing-and-caught and failing-and-propagating sub-calls and file/custom resource handles. The root is run on an empty store, then up to four more times after forgetting the root plus a drawn subset of the calls beneath it (the rest stays memoized, including memoized exceptions), optionally after a restart or cache flush, singly or inside a batch. After every run the stored record of every call that must exist (direct invocations in order with argument hashes, resource handles, transitive function-version set, context, result type) must equal the model's, hence be identical for every memoized subset.",
+                note="Sampling of trees and memoized subsets. Invocations are compared by (function, argument hash)."),
+    "C15": dict(engine="calltree", level="exploration", design="4/C15, 3.5",
+                technique="deterministic simulation: twin worlds from the same pre-state (batch vs. element-wise) compared slot by slot, store by store and execution by execution",
+                text="World A evaluates call_batch (raise_first_exception true/false) or map_over_range over the root of a generated call tree; world B evaluates the same elements one by one in order. Batches have length 0-8 with duplicates, failing elements, a drawn pre-memoized subset, partial-application prefixes, cache on/off and an optional restart before the batch. Results must agree position by position (exceptions by class and message; the first failing slot is what is raised), each distinct element's body runs at most once and never for a pre-memoized element, and the final stores must be equal as sets of (name, argument hash, result type, value, invocation list).",
+                note="Sampling."),
+    "C16": dict(engine="calltree", level="exploration", design="4/C16, 3.5",
+                technique="deterministic simulation: repeated runs of generated call trees under sequences of context arguments, checked against an inheritance/identity reference model incl. store probes under every context",
+                text="Call trees with context-argument overrides (including the empty dictionary) on inner edges are run repeatedly under drawn sequences of root contexts (A, B, A, none, ...), with sub-calls memoized beforehand under the same or other contexts, singly or in a batch, across restarts. After each run: function bodies saw only their declared parameters; exactly the calls whose effective context is new executed (a repeat under an earlier context executes nothing); every call has a memento under its effective context recording that context, and none under any other context of the universe; a run with further calls prevented executes no nested body and every nested call fails with a runtime error.",
+                note="Sampling. Empty dictionary: no context for identity, 'attached' for inheritance. Prevention is exercised with arguments no other run uses."),
     "C02": dict(engine="calltree", level="exploration", design="4/C02, 3.5",
                 technique="deterministic simulation: seeded call/forget/restart/evict/clock-jump histories over scripted functions vs. a call-ledger reference model, on three backends",
                 text="Scripted functions return values from the documented result-type domain (54 catalogue kinds and nestings, incl. partitions) or raise (built-in, custom, two-argument constructor, function-local class, not-to-be-memoized). Histories of calls (normal, ignore_result, force_local), repeats, forget, forget_all, memento queries, restarts (fresh process over the same store), cache evictions and clock jumps run on filesystem, filesystem+cache (4 KiB - 4 MiB) and memory backends. The ledger demands: the body runs exactly once per distinct call and never again until forgotten; every later call returns an equal value of the same type (also after restart / eviction); the first call's value is usable; exceptions are replayed as the same class when rebuildable from a message, else as the memoized-exception type, with the original message; not-to-be-memoized exceptions are raised and executed every time and never recorded; the recorded result type matches.",
